@@ -75,7 +75,8 @@ def run(ctx):
             # always: a partial line named K(1)(1270)bar- with file-specific separately written decays
             doc.append(["line", ["D", "D0", None, None, [["D", "K(1)(1270)bar-", None, None, []], ["D", "pi+", None, None, []]]]] + A.coupling(rng))
             for r2, b in rng.sample(A.CASCADE["K(1)(1270)bar-"], rng.randint(1, 3)):
-                doc.append(["line", ["D", "K(1)(1270)bar-", rng.choice([None, "D"]), rng.choice([None, "GSpline.EFF"]), [A.two_body(rng, r2), ["D", b, None, None, []]]]] + A.coupling(rng))
+                wave = rng.choice([None, "D"]) if r2 in A.RES_V else None      # the D wave is supported for A -> V P only
+                doc.append(["line", ["D", "K(1)(1270)bar-", wave, rng.choice([None, "GSpline.EFF"]), [A.two_body(rng, r2), ["D", b, None, None, []]]]] + A.coupling(rng))
         doc += A.required_families(doc, rng)
         doc = [st for st in doc if st[0] != "fcs"]
         if i % 3 == 1:
